@@ -198,25 +198,26 @@ structure StepOk {σ : Type} {F : Finder σ} {d : Array UInt8} {dict : Nat}
   optsSize : st.opts.size = n
   mfR : FS.R st.mf
   mfPos : FS.pos st.mf = p + chainLen st.syms + st.ra
-  ra : st.ra = 0 ∨ (st.ra = 1 ∧ ∀ m ∈ st.ms,
-        ValidMatch d dict (p + chainLen st.syms) (min 273 (d.size - (p + chainLen st.syms))) m)
+  ra : st.ra = 0 ∨ (st.ra = 1 ∧ (∀ m ∈ st.ms,
+        ValidMatch d dict (p + chainLen st.syms) (min 273 (d.size - (p + chainLen st.syms))) m) ∧
+        lensIncreasing st.ms = true)
 
 /-- the hypothesis of the loop theorem: every call of `nextCore` in a consistent situation is `StepOk` -/
 def StepsOk {σ : Type} {F : Finder σ} {d : Array UInt8} {dict : Nat} (FS : FinderSound F d dict 273)
     (P : NormalParams) (pr : Params) (nice : Nat) : Prop :=
   ∀ (ps : Probs) (pt : PriceSt) (p : Nat) (c : Coder) (opts : Opts) (mf : σ) (ms : List Match),
     p < d.size → opts.size = P.opts → RepsLt c p → RepsLt c dict → FS.R mf → FS.pos mf = p + 1 →
-    (∀ m ∈ ms, ValidMatch d dict p (min 273 (d.size - p)) m) →
+    (∀ m ∈ ms, ValidMatch d dict p (min 273 (d.size - p)) m) → lensIncreasing ms = true →
     StepOk FS P.opts p c (nextCore F { P := P, pr := pr, nice := nice, d := d, ps := ps, pt := pt } p c opts mf ms)
 
 theorem loopSpec_valid {σ : Type} {F : Finder σ} {d : Array UInt8} {dict : Nat}
-    (FS : FinderSound F d dict 273) (P : NormalParams) (pr : Params) (nice dictBuf : Nat)
+    (FS : FinderSound F d dict 273) (hFinc : ∀ s, FS.R s → lensIncreasing (F.find d s).1 = true) (P : NormalParams) (pr : Params) (nice dictBuf : Nat)
     (hdb : min dict d.size ≤ dictBuf) (h32 : dict ≤ 2 ^ 32) (hS : StepsOk FS P pr nice) :
     ∀ (fuel p : Nat) (c : Coder) (ps : Probs) (pt : PriceSt) (opts : Opts) (mf : σ) (ms : List Match) (ra : Nat)
       (h : Hist),
       d.size - p ≤ fuel → p ≤ d.size → HistIs d p h → RepsLt c p → RepsLt c dict → opts.size = P.opts →
       FS.R mf → FS.pos mf = p + ra →
-      (ra = 0 ∨ (ra = 1 ∧ ∀ m ∈ ms, ValidMatch d dict p (min 273 (d.size - p)) m)) →
+      (ra = 0 ∨ (ra = 1 ∧ (∀ m ∈ ms, ValidMatch d dict p (min 273 (d.size - p)) m) ∧ lensIncreasing ms = true)) →
       ∃ c' h', parseRun dictBuf (loopSpec F P pr nice d fuel p c ps pt opts mf ms ra) c h = some (c', h') ∧
         HistIs d d.size h'
   | 0, p, c, ps, pt, opts, mf, ms, ra, h, hf, hple, hh, _, _, _, _, _, _ => by
@@ -230,26 +231,27 @@ theorem loopSpec_valid {σ : Type} {F : Finder σ} {d : Array UInt8} {dict : Nat
       -- the finder has consumed position `p` and its matches are valid
       have hfm : FS.R (if ra = 0 then F.find d mf else (ms, mf)).2 ∧
           FS.pos (if ra = 0 then F.find d mf else (ms, mf)).2 = p + 1 ∧
-          ∀ m ∈ (if ra = 0 then F.find d mf else (ms, mf)).1, ValidMatch d dict p (min 273 (d.size - p)) m := by
-        rcases hra with h0 | ⟨h1, hms⟩
+          (∀ m ∈ (if ra = 0 then F.find d mf else (ms, mf)).1, ValidMatch d dict p (min 273 (d.size - p)) m) ∧
+          lensIncreasing (if ra = 0 then F.find d mf else (ms, mf)).1 = true := by
+        rcases hra with h0 | ⟨h1, hms, hinc⟩
         · subst h0
           simp only [if_true]
           have hv := FS.find_valid _ hR
           have hp2 := FS.find_pos _ hR
           rw [hpos] at hv hp2
-          exact ⟨FS.find_R _ hR, hp2, hv⟩
+          exact ⟨FS.find_R _ hR, hp2, hv, hFinc _ hR⟩
         · subst h1
           simp only [Nat.succ_ne_zero, if_false]
-          exact ⟨hR, hpos, hms⟩
-      obtain ⟨hR1, hpos1, hms1⟩ := hfm
-      have hs := hS ps pt p c opts _ _ hp hos hrp hrd hR1 hpos1 hms1
+          exact ⟨hR, hpos, hms, hinc⟩
+      obtain ⟨hR1, hpos1, hms1, hinc1⟩ := hfm
+      have hs := hS ps pt p c opts _ _ hp hos hrp hrd hR1 hpos1 hms1 hinc1
       generalize nextCore F { P := P, pr := pr, nice := nice, d := d, ps := ps, pt := pt } p c opts
         (if ra = 0 then F.find d mf else (ms, mf)).2 (if ra = 0 then F.find d mf else (ms, mf)).1 = st at hs
       obtain ⟨hprog, hchain, hsz, hmR, hmPos, hmRa⟩ := hs
       obtain ⟨e1, e2, _, _, _⟩ := encodeSyms_spec pr d st.syms p c ps st.pt []
       obtain ⟨h1, hrun, hh1, hrp1, hrd1, hq1⟩ := chain_run dictBuf hdb h32 st.syms p c h hchain hh hrp hrd hple
       rw [hrun, e1, e2]
-      exact loopSpec_valid FS P pr nice dictBuf hdb h32 hS fuel (p + chainLen st.syms) _ _ _ st.opts st.mf st.ms
+      exact loopSpec_valid FS hFinc P pr nice dictBuf hdb h32 hS fuel (p + chainLen st.syms) _ _ _ st.opts st.mf st.ms
         st.ra h1 (by omega) hq1 hh1 hrp1 hrd1 hsz hmR hmPos hmRa
     · next hp =>
       have : p = d.size := by omega
@@ -259,7 +261,7 @@ theorem loopSpec_valid {σ : Type} {F : Finder σ} {d : Array UInt8} {dict : Nat
 /-- **generic, conditional on the steps**: with a sound match finder and valid steps the normal encoder's parse is
     valid and denotes the data -/
 theorem normalParse_valid_of_steps {σ : Type} {F : Finder σ} {d : Array UInt8} {dict : Nat}
-    (FS : FinderSound F d dict 273) (P : NormalParams) (pr : Params) (dictOpt nice dictBuf : Nat)
+    (FS : FinderSound F d dict 273) (hFinc : ∀ s, FS.R s → lensIncreasing (F.find d s).1 = true) (P : NormalParams) (pr : Params) (dictOpt nice dictBuf : Nat)
     (hd1 : 1 ≤ dict) (hdb : min dict d.size ≤ dictBuf) (h32 : dict ≤ 2 ^ 32) (hS : StepsOk FS P pr nice) :
     ∃ c' h', parseRun dictBuf (normalParse F P pr dictOpt nice d) Coder.init (#[] : Hist) = some (c', h') ∧
       h' = d.map (fun b => b.toNat) := by
@@ -273,7 +275,7 @@ theorem normalParse_valid_of_steps {σ : Type} {F : Finder σ} {d : Array UInt8}
     simp only
     rw [parseRun_lit dictBuf _ _ _ _ (byteAt_lt d 0)]
     have hh : HistIs d (0 + 1) ((#[] : Hist).push (byteAt d 0)) := (HistIs.empty d).push
-    obtain ⟨c', h', hp, hh'⟩ := loopSpec_valid FS P pr nice dictBuf hdb h32 hS d.size 1
+    obtain ⟨c', h', hp, hh'⟩ := loopSpec_valid FS hFinc P pr nice dictBuf hdb h32 hS d.size 1
       (Coder.init.apply (.lit (byteAt d 0))) _ _ (Array.replicate P.opts {}) (F.skip d 1 F.init) [] 0 _
       (by omega) (by omega) hh
       (RepsLt.init_lit _ 1 (Nat.le_refl 1)) (RepsLt.init_lit _ dict hd1) Array.size_replicate
